@@ -341,6 +341,13 @@ def _call(m: BufferMachine, op, vals, core):
     if callee == "snax_cluster_core_idx":
         vals[op.res[0]] = core.id
         return
+    f = m.funcs.get(callee)
+    if f is not None and f.body.blocks:
+        # a function defined in the module (e.g. the per-core specialisations made by function-constant-pinning)
+        res = yield from m.run_function(callee, [m.get(vals, o) for o in op.operands], core)
+        for r, v in zip(op.res, res):
+            vals[r] = v
+        return
     raise HarnessError(f"call to @{callee} not modelled")
 
 
